@@ -131,6 +131,18 @@ def _compile(csrc, modname, outdir):
     return out, ""
 
 
+def _same_ascii(quoted, cur):
+    """Cython does not reproduce non-ASCII characters of the source line in the comment it writes into the C file (it drops or
+    replaces them): compare what is left when they are taken out on both sides."""
+    def strip(s_):
+        return re.sub(r"[^\x20-\x7e]", "", s_).strip()
+
+    def mask(s_):
+        return re.sub(r"[^\x20-\x7e]", "?", s_).strip()
+    q = quoted.strip()
+    return strip(q) == strip(cur) or q == mask(cur) or strip(q.replace("?", "")) == strip(cur).replace("?", "")
+
+
 def coherence(pyx_path, c_path):
     """Compare the source lines the generated C quotes with the current .pyx.
 
@@ -148,7 +160,7 @@ def coherence(pyx_path, c_path):
             if ln.rstrip().endswith("# <<<<<<<<<<<<<<"):
                 quoted = ln[3:].rstrip()[: -len("# <<<<<<<<<<<<<<")].rstrip() if ln.startswith(" * ") else ln
                 cur = pyx_lines[n - 1].rstrip() if 0 < n <= len(pyx_lines) else "<EOF>"
-                if quoted.strip() != cur.strip():
+                if quoted.strip() != cur.strip() and not _same_ascii(quoted, cur):
                     mism[n] = (n, quoted.strip(), cur.strip())
     return sorted(mism.values())
 
